@@ -118,6 +118,16 @@ CHECKS = {
          "from the singularity; sse2 (debug+release), scalar-math, core-simd and libm builds."),
    note="Trusted: TLC, harness rot.rs tolerance comparison. Off-grid angles and body-diagonal axes are covered only relationally; growth inside 1e-7 of gimbal lock undecided.",
    ref="5 (C09)"),
+ "C05": dict(
+   technique="TLA+ conversion graph (9 representations, 38 conversion functions) with the action-preservation property; TLC enumerates every chain of up to 4 conversions from exact grid rotations; homomorphism laws exactly on integer affine maps and Hurwitz quaternions",
+   text=("MC_C05 makes each public conversion an edge whose effect on the abstract action (the exact rotation matrix over Z[sqrt2,1/2]) is "
+         "the identity (action property ActionPreserved); TLC enumerates all chains of length <= 4 from seed rotations on the 45-degree "
+         "grid, labelled with the matrix->quaternion branch they fall in (all four are reached and counted). The harness walks each chain "
+         "on the real types and after every hop compares the image of three probe vectors through every applying method (q*v, M*v, "
+         "transform_point/vector, project_point) with the exact matrix; conversion commuting with composition, inversion and identity is "
+         "checked exactly on integer affine maps (MC_C03 aff family) and Hurwitz quaternions (MC_C04)."),
+   note="Trusted: TLC, harness rot.rs/lin.rs. Tolerance 4e-5 (f32 involved) / 1e-11 (f64 only). Rotations within 1e-3 of 0/pi about arbitrary axes not enumerated.",
+   ref="5 (C05)"),
 }
 
 PENDING = {}
